@@ -205,6 +205,10 @@ def audit_cases():
         ('a struct of 12000 limited arrays (D204)', outs + ['@D/a.prophy'],
          {'a.prophy': 'struct S {\n' + ''.join('    u8 a%d<3>;\n' % k for k in range(12000)) + '};\n'}),
         ('1 MB of characters outside the language (D204)', outs + ['@D/a.prophy'], {'a.prophy': '$' * 1000000}),
+        ('100 illegal characters, a syntax error, then 1 MB of illegal characters (seeded C13-r8)', outs + ['@D/a.prophy'],
+         {'a.prophy': '$' * 100 + ' ; ' + '$' * 1000000}),
+        ('illegal characters and syntax errors in turn, then 1 MB of illegal characters', outs + ['@D/a.prophy'],
+         {'a.prophy': '$ ; ' * 80 + '$' * 1000000}),
         ('isar include name with a line break, schema output', ['--isar', '--prophy_out', '@D', '@D/a.xml'],
          {'a.xml': XI % '<xi:include href="types&#10;v2.xml" comment="a comment that is definitely longer than fifty characters in total"/>'}),
         ('isar name ending in a line break, schema output', ['--isar', '--prophy_out', '@D', '@D/a.xml'],
